@@ -45,9 +45,20 @@ def build(tier, known):
                     claim='load(t) = v  =>  load(serialize(v)) = v and serialize(load(serialize(v))) == serialize(v) (byte-identical)',
                     native=('data', 'n_c01_text_roundtrip'), parts=(16 if n >= 5 else (4 if n == 4 else 1)),
                     timeout=900 if q else 7200, known_keys=('C01-edge-whitespace-from-charref',)))
+    # any bytes (non-ASCII literal text, invalid UTF-8 in lenient mode)
+    for preserve in (False, True):
+        for strict in (True, False):
+            for n in range(1, (3 if q else 4) + 1):
+                name = f'e2_c01_roundtrip_bytes_{"keepws" if preserve else "trim"}_{"strict" if strict else "lenient"}_n{n}'
+                hs.append(E2Spec(
+                    name, 'C01RoundTrip', dict(n=n, strict=strict, preserve=preserve, exclude=[0x3c], ascii_only=False),
+                    functions=['parser::ArxmlParser::parse_character_data', 'chardata::CharacterData::serialize_internal', 'chardata::escape_text'],
+                    bound=f'ALL byte strings of length exactly {n} without `<` (multi-byte UTF-8, invalid UTF-8); String spec preserve_whitespace={preserve}; {"strict" if strict else "lenient"} parser',
+                    claim='load(t) = v  =>  load(serialize(v)) = v and serialize(load(serialize(v))) == serialize(v) (byte-identical)',
+                    native=('data', 'n_c01_text_roundtrip'), parts=(16 if n >= 3 else 1), timeout=900 if q else 7200, known_keys=('C01-edge-whitespace-from-charref',)))
     info = dict(
         assumptions=[
-            'E2: texts are ASCII (values reach non-ASCII only through decoded character references, which are covered); the text token contains no `<` (tokenizer postcondition, decided by h_c01_read_characters)',
+            'E2: texts are ASCII up to the larger bound, arbitrary bytes up to the smaller one (values reach non-ASCII only through decoded character references, which are covered); the text token contains no `<` (tokenizer postcondition, decided by h_c01_read_characters)',
             'E2 library models (mirsym/models.py) of the core/alloc functions called by the executed MIR are trusted; validated against the native build (tools/e2_validate.py)',
             'tokenizer steps are decided from an arbitrary state satisfying the tokenizer invariant',
         ],
